@@ -25,14 +25,20 @@ TotalLen(runs)    == SumN(runs, Len(runs))
 \*   bases[f+1] file byte offset of host cell 0 of file f;  pbase offset added to guest offsets in the parent
 HostByte(geo, t) == geo.bases[t.f + 1] + (t.c \div geo.cb) * geo.stride + (t.c % geo.cb) * geo.cellB
 
+\* identity of the image under test: token file f carries pattern file id geo.fids[f+1] (default f), and compressed
+\* units carry geo.csalt + unit (default 0) - different images in one process never hold equal bytes at equal places,
+\* so data leaking from one object to another is visible
+Fid(geo, f) == IF "fids" \in DOMAIN geo THEN geo.fids[f + 1] ELSE f
+CSalt(geo)  == IF "csalt" \in DOMAIN geo THEN geo.csalt ELSE 0
+
 \* the bytes from lo on of guest cell q, whose source token is t, agree with run r that starts at guest byte g
 CellAgrees(t, q, lo, r, g, geo) ==
   LET inCell == lo - q * geo.cellB  \* first byte inside the cell
       inRun  == lo - g              \* same byte inside the run
   IN CASE t.k = "Z" -> r.k = "Z"
-       [] t.k = "D" -> r.k = "D" /\ r.f = t.f /\ r.o + inRun = HostByte(geo, t) + inCell
+       [] t.k = "D" -> r.k = "D" /\ r.f = Fid(geo, t.f) /\ r.o + inRun = HostByte(geo, t) + inCell
        [] t.k = "B" -> r.k = "D" /\ r.f = ParentF /\ r.o + inRun = geo.pbase + t.c * geo.cellB + inCell
-       [] t.k = "C" -> r.k = "C" /\ r.f = t.f /\ r.o + inRun = t.c * geo.cellB + inCell
+       [] t.k = "C" -> r.k = "C" /\ r.f = t.f + CSalt(geo) /\ r.o + inRun = t.c * geo.cellB + inCell
        [] OTHER -> FALSE
 
 \* run r covering guest bytes [g, g + r.n) agrees with Src on every overlapped cell
